@@ -194,3 +194,64 @@ pub async fn header_only_deadline(a: &Value) -> Value {
         Err(_) => json!({"outcome": "hung", "elapsed_ms": ms}),
     }
 }
+
+/// C06, application-level decode paths reachable from a remote peer: a node that serves through anemo's Router, with one untyped route and typed
+/// routes wired like generated code (rpc::server::Rpc with the json and the bincode codec).  A hostile (but anemo) peer sends odd routes and
+/// undecodable bodies of every length; every one must be answered (an error status), nothing may crash, and honest calls keep working.
+pub async fn hostile_requests(_a: &Value) -> Value {
+    use anemo::rpc::codec::{BincodeCodec, JsonCodec};
+    use anemo::rpc::Status;
+    let untyped = tower::service_fn(|r: Request<Bytes>| async move { Ok::<_, std::convert::Infallible>(Response::new(r.into_body())) });
+    let json = tower::service_fn(|request: Request<Bytes>| async move {
+        let method = tower::service_fn(|request: Request<u64>| async move { Ok::<_, Status>(Response::new(request.into_body().wrapping_add(1))) });
+        let mut rpc = anemo::rpc::server::Rpc::new(JsonCodec::<u64, u64>::default(), JsonCodec::<u64, u64>::default());
+        Ok::<_, std::convert::Infallible>(rpc.unary(method, request).await)
+    });
+    let bincode = tower::service_fn(|request: Request<Bytes>| async move {
+        let method = tower::service_fn(|request: Request<String>| async move { Ok::<_, Status>(Response::new(request.into_body().len() as u64)) });
+        let mut rpc = anemo::rpc::server::Rpc::new(BincodeCodec::<u64, String>::default(), BincodeCodec::<u64, String>::default());
+        Ok::<_, std::convert::Infallible>(rpc.unary(method, request).await)
+    });
+    let router = anemo::Router::new().route("/echo", untyped).route("/typed/json", json).route("/typed/bincode", bincode).route("/tree/*rest", untyped);
+    let mut c = Config::default();
+    c.connect_timeout_ms = Some(3000);
+    let server = anemo::Network::bind("127.0.0.1:0").server_name("verif").private_key([61; 32]).config(c).start(router).expect("server");
+    let honest = net(62, 10);
+    let hostile = net(63, 10);
+    let sid = honest.connect(server.local_addr()).await.expect("connect");
+    hostile.connect(server.local_addr()).await.expect("connect");
+    let ok_call = |n: &anemo::Network| { let n = n.clone(); async move {
+        let r = tokio::time::timeout(Duration::from_secs(3), n.rpc(sid, Request::new(Bytes::from_static(b"41")).with_route("/typed/json"))).await;
+        matches!(r, Ok(Ok(ref resp)) if resp.status().to_u16() == 200 && resp.body().as_ref() == b"42")
+    } };
+    let mut unanswered: Vec<String> = Vec::new();
+    let mut wrongly_ok: Vec<String> = Vec::new();
+    let mut sent = 0u64;
+    let mut cases: Vec<(String, String, Vec<u8>, bool)> = Vec::new();     // (label, route, body, a success status is acceptable)
+    // odd routes: must be NotFound (or served), never a crash
+    for route in ["", "/", "//", "/echo/", "/ECHO", "/typed", "/typed/", "/tree", "/tree/", "/tree/a/b/c", "/*rest", "/:x", "/{x}", "/{*rest}", "/echo?x=1", "/\u{e9}cho", "/echo\u{0}", "echo"] {
+        cases.push((format!("route {route:?}"), route.to_owned(), b"41".to_vec(), true));
+    }
+    cases.push(("route of 10000 x 'a'".to_owned(), format!("/{}", "a".repeat(10000)), b"41".to_vec(), true));
+    // undecodable bodies for the json method: a json string (wrong type) of 0..=420 two-byte characters, other wrong shapes, invalid UTF-8
+    for n in 0..=420usize { cases.push((format!("json string of {n} x 'é'"), "/typed/json".to_owned(), format!("\"{}\"", "é".repeat(n)).into_bytes(), false)); }
+    for n in [0usize, 1, 170, 171, 255, 256, 300] { cases.push((format!("json string of {n} x '漢'"), "/typed/json".to_owned(), format!("\"{}\"", "漢".repeat(n)).into_bytes(), false)); }
+    for b in [&b""[..], b"-1", b"1e999", b"[1,2", b"{\"a\":", b"\xff\xfe\xfd", b"18446744073709551616", b"null", b"   "] { cases.push((format!("json body {:?}", String::from_utf8_lossy(b)), "/typed/json".to_owned(), b.to_vec(), false)); }
+    // undecodable bodies for the bincode method (expects a String): truncated length, huge length, invalid UTF-8
+    for b in [&b""[..], b"\x05", b"\xff\xff\xff\xff\xff\xff\xff\xff", b"\xff\xff\xff\xff\xff\xff\xff\x7fabc", b"\x02\x00\x00\x00\x00\x00\x00\x00\xff\xfe", b"\x0a\x00\x00\x00\x00\x00\x00\x00ab"] {
+        cases.push((format!("bincode body {}", hex::encode(b)), "/typed/bincode".to_owned(), b.to_vec(), false));
+    }
+    for (i, (label, route, body, success_ok)) in cases.iter().enumerate() {
+        sent += 1;
+        let r = tokio::time::timeout(Duration::from_secs(3), hostile.rpc(sid, Request::new(Bytes::from(body.clone())).with_route(route.clone()))).await;
+        match r {
+            Ok(Ok(resp)) => { if resp.status().to_u16() == 200 && !success_ok && wrongly_ok.len() < 5 { wrongly_ok.push(label.clone()); } }
+            _ => { if unanswered.len() < 5 { unanswered.push(label.clone()); } }
+        }
+        if (i % 40 == 39 || !unanswered.is_empty()) && !(ok_call(&honest).await && ok_call(&hostile).await) {
+            return json!({"sent": sent, "unanswered": unanswered, "wrongly_accepted": wrongly_ok, "serving_stopped_after": label, "server_closed": server.is_closed()});
+        }
+    }
+    let still = ok_call(&honest).await && ok_call(&hostile).await;
+    json!({"sent": sent, "unanswered": unanswered, "wrongly_accepted": wrongly_ok, "serving_stopped_after": if still { Value::Null } else { json!("the end") }, "server_closed": server.is_closed()})
+}
